@@ -212,7 +212,7 @@ func mutateBytes(r *vlib.R, in []byte) []byte {
 
 func runC12(tier string, _ []string) int {
 	c := vlib.NewCtx("C12", tier, "exploration")
-	c.SetRule("round trips: PRNG points/nodes (hostile strings, float bit patterns incl. NaN payloads, wire-range times, data nil/empty/random) through ToPb/PbDecodePoints, ToPb/PbDecodeNode, Nodes.ToPb/PbDecodeNodes, hand-wrapped NodeRequest/NodesRequest, the four bus message decoders (origin equal to the node / parent id in the subject included), high-rate payloads built from their documented layout (periods up to 2^32-1 ns, up to 600 samples: sample i must carry start + i x period), and serial points through SerialEncode / SerialDecode / PbDecodeSerialPoints with times at and around 0, 2^31, 2^32, 2^33 ns and anywhere in the first eight seconds after the epoch; 2-6 encodings (half of them above 4 KiB) made in a row from 12 goroutines and decoded only afterwards; distinct = (codec, count of points, field classes present). decoders: random bytes and mutations (truncate, flip, set, insert, delete, splice, huge varint) of valid encodings (incl. bare 17-20 byte serial frames of every documented subject) into all 9 decoders + 4 subject parsers, a known good message decoded again afterwards (must still be itself); distinct = (decoder, outcome class, input length bucket)")
+	c.SetRule("round trips: PRNG points/nodes (lists of 0-5, 200 and 1000-20000 points; hostile strings, float bit patterns incl. NaN payloads, wire-range times, data nil/empty/random) through ToPb/PbDecodePoints, ToPb/PbDecodeNode, Nodes.ToPb/PbDecodeNodes, hand-wrapped NodeRequest/NodesRequest, the four bus message decoders (origin equal to the node / parent id in the subject included), high-rate payloads built from their documented layout (periods up to 2^32-1 ns, up to 600 samples: sample i must carry start + i x period), and serial points through SerialEncode / SerialDecode / PbDecodeSerialPoints with times at and around 0, 2^31, 2^32, 2^33 ns and anywhere in the first eight seconds after the epoch; 2-6 encodings (half of them above 4 KiB) made in a row from 12 goroutines and decoded only afterwards; distinct = (codec, count of points, field classes present). decoders: random bytes and mutations (truncate, flip, set, insert, delete, splice, huge varint) of valid encodings (incl. bare 17-20 byte serial frames of every documented subject) into all 9 decoders + 4 subject parsers, a known good message decoded again afterwards (must still be itself); distinct = (decoder, outcome class, input length bucket)")
 	c.Assume("times limited to 0001..9999 (wire range); tombstone within int32 (wire type)")
 	nRT := c.N(30000, 1500000)
 	nDec := c.N(100000, 5000000)
@@ -223,6 +223,10 @@ func runC12(tier string, _ []string) int {
 		np := r.Intn(6)
 		if r.Chance(0.02) {
 			np = 200
+		}
+		if i%997 == 5 {
+			// thousands of points in one message (up to what fits the bus's payload limit)
+			np = []int{1000, 4095, 4096, 4097, 5000, 10000, 16384, 20000}[(i/997)%8]
 		}
 		pts := make(data.Points, np)
 		for j := range pts {
